@@ -252,6 +252,54 @@ def _sink_temp_copies(fn: ast.AST) -> None:
     do_block(fn.body)
 
 
+def _retarget_tuple_defs(fn: ast.AST) -> bool:
+    """`t = (A, B)` .. `x, y = t` (t bound once and read only there, x / y not mentioned in between, same block): the tuple is
+    built for x, y - `x, y = (A, B)` at the place of the definition.  Also `d = {..}` .. `e = d`.  Returns True if anything changed."""
+    changed = False
+    stores: Dict[str, int] = {}
+    loads: Dict[str, int] = {}
+    for n in ast.walk(fn):
+        if isinstance(n, ast.Name):
+            if isinstance(n.ctx, ast.Load):
+                loads[n.id] = loads.get(n.id, 0) + 1
+            else:
+                stores[n.id] = stores.get(n.id, 0) + 1
+    for owner in ast.walk(fn):
+        for fld in ("body", "orelse", "finalbody"):
+            blk = getattr(owner, fld, None)
+            if not (isinstance(blk, list) and blk and isinstance(blk[0], ast.stmt)):
+                continue
+            k = 0
+            while k < len(blk):
+                st = blk[k]
+                k += 1
+                if not (isinstance(st, ast.Assign) and len(st.targets) == 1 and isinstance(st.targets[0], ast.Name) and isinstance(st.value, (ast.Tuple, ast.Dict))
+                        and stores.get(st.targets[0].id) == 1 and loads.get(st.targets[0].id) == 1):
+                    continue
+                t = st.targets[0].id
+                for j in range(k, min(k + 8, len(blk))):
+                    use = blk[j]
+                    if isinstance(use, ast.Assign) and len(use.targets) == 1 and isinstance(use.value, ast.Name) and use.value.id == t:
+                        tg = use.targets[0]
+                        ok = (isinstance(st.value, ast.Tuple) and isinstance(tg, (ast.Tuple, ast.List)) and len(tg.elts) == len(st.value.elts)
+                              and all(isinstance(e, ast.Name) for e in tg.elts)) or (isinstance(tg, ast.Name))
+                        if not ok:
+                            break
+                        names = {e.id for e in (tg.elts if isinstance(tg, (ast.Tuple, ast.List)) else [tg])}
+                        between = blk[k:j]
+                        if any(isinstance(x, ast.Name) and x.id in names for b in between + [st] for x in ast.walk(b)):
+                            break
+                        st.targets = [tg]
+                        del blk[j]
+                        changed = True
+                        break
+                    if any(isinstance(x, ast.Name) and x.id == t for x in ast.walk(use)):
+                        break
+    if changed:
+        ast.fix_missing_locations(fn)
+    return changed
+
+
 def _drop_stores(body: List[ast.stmt], name: str) -> List[ast.stmt]:
     class T(ast.NodeTransformer):
         def visit_Assign(self, n):
@@ -1077,6 +1125,17 @@ class Inliner:
                 _sink_temp_copies(new)
                 if _slt(ast.Module(body=[new], type_ignores=[])):       # a tuple result that became literal only now
                     new = _SplitTupleAssign().visit(new)
+                # results handed over as (nested) tuples / keyword dicts: split, forward the pieces, splat - twice, as one enables the other
+                from .model import _splat_literal_dicts as _sld
+                for _ in range(2):
+                    d0 = ast.dump(new)
+                    _retarget_tuple_defs(new)
+                    new = _SplitTupleAssign().visit(new)
+                    _propagate_copies(new)
+                    _sld(ast.Module(body=[new], type_ignores=[]))
+                    _slt(ast.Module(body=[new], type_ignores=[]))
+                    if ast.dump(new) == d0:
+                        break
                 from .model import _sink_returns, _unflag_loops, _inline_branch_flags
                 _inline_branch_flags(ast.Module(body=[new], type_ignores=[]))
                 _sink_returns(ast.Module(body=[new], type_ignores=[]))
